@@ -161,6 +161,11 @@ async def probe(log, name, coro, **info):
     return r
 
 
+class _Unprintable(Exception):
+    def __str__(self):
+        return "subscriber " + 7   # TypeError
+
+
 class Sub:
     """An async subscriber that records its invocations."""
 
@@ -214,6 +219,10 @@ class Sub:
             fut = asyncio.get_running_loop().create_future()
             fut.cancel()
             await fut
+        if self.raises == "badstr":
+            # an exception that cannot even be printed (its __str__ fails): still the
+            # application's problem, not the other subscribers'
+            raise _Unprintable(self.name)
         if self.raises == "timeout":
             raise TimeoutError(f"subscriber {self.name} timed out")
         if self.raises:
